@@ -23,6 +23,8 @@ func init() {
 				Quick: map[string]int{"STUFF": 2, "GSS": 1}, Witnesses: []string{"gssenc-request-before-the-sslrequest"}},
 			{Pkg: "wire", Entry: "VerifH12b", What: "CancelRequest after the SSL refusal closes without reply or callback",
 				Quick: map[string]int{}, Witnesses: []string{"cancel-after-ssl"}},
+			{Pkg: "wire", Entry: "VerifH11d", What: "the TLS/plaintext differential with a limit of 32768 and a start-up packet whose user name is 12000 bytes long (last byte symbolic): accepted or refused, the session inside TLS and the plaintext session agree in transcript and callbacks",
+				Quick: map[string]int{"N": 0, "BIGSTARTUP": 12000}, Witnesses: []string{"start-up-packet-of-more-than-ten-thousand-bytes"}},
 			{Pkg: "wire", Entry: "VerifH11d", What: "differential: a session (startup, one message of symbolic type and body with a correct, too small or oversized declared length, a simple query, Terminate) served in plaintext and inside TLS by two equally configured servers gives the same transcript and the same callback trace",
 				Quick: map[string]int{"N": 3}, Thorough: map[string]int{"N": 5},
 				Witnesses: []string{"oversized-inside", "query-served-in-both"}},
